@@ -345,7 +345,11 @@ def check_labels(prog, rep):
             if isinstance(e, ast.Name) and e.id in defs:
                 return src_attr(defs[e.id], depth + 1)
             if isinstance(e, ast.IfExp):
-                return src_attr(e.body, depth + 1)
+                # `X if gmat.a is not None else None` in either orientation: the branch that is not the constant None
+                for br in (e.body, e.orelse):
+                    if not (isinstance(br, ast.Constant) and br.value is None):
+                        return src_attr(br, depth + 1)
+                return None
             if isinstance(e, ast.Call) and isinstance(e.func, ast.Attribute) and e.func.attr == "copy":
                 return src_attr(e.func.value, depth + 1)
             if isinstance(e, ast.Call) and isinstance(e.func, ast.Name) and len(e.args) == 1 and not e.keywords:
